@@ -170,12 +170,12 @@ def check_case(case, acc):
         op = step.op
         plain = mut.op_is_plain(op)
         ctx = "%s plan=%s on %s" % (op, step.plan, step.pre)
-        if isinstance(step.exc, AssertionError) and step.plan.get("evict"):
+        if isinstance(step.exc, AssertionError) and not isinstance(step.exc, mut.Veto) and step.plan.get("evict"):
             # with ANYTREE_ASSERTIONS=1 the library re-checks 'all requested children are attached' after the loop; a hook
             # that evicts one of them makes that optional self-check fail - the hook's doing, outside this property
             acc.note("evicting_hook_trips_optional_self_check")
             return
-        if isinstance(step.exc, AssertionError):
+        if isinstance(step.exc, AssertionError) and not isinstance(step.exc, mut.Veto):
             raise Violation("internal-assertion", "%s: %r" % (ctx, step.exc))
         if isinstance(step.exc, RecursionError):
             acc.note("calls_ending_in_RecursionError_not_bracket_checked")  # unbounded rollback recursion, see KF-C03-4
